@@ -951,7 +951,7 @@ func (g *gen) augments() {
 		case g.wantInvalid(InvAugLeaf):
 			var leaves []target
 			for _, c := range all {
-				if c.x.Kind == KLeaf || c.x.Kind == KLeafList {
+				if c.x.Kind == KLeaf || c.x.Kind == KLeafList || c.x.Kind == KAnyData || c.x.Kind == KAnyXML {
 					leaves = append(leaves, c)
 				}
 			}
